@@ -76,4 +76,9 @@ TEXT = {
         "level": "Generated search over key-exchange histories (~2500 FetchData calls quick) plus a truncation sweep of a valid message at every byte offset (thorough). Exploration.",
         "note": "TLS only (QUIC/SCION key exchange not exercised); certificate validation is disabled as in the project's insecure-skip-verify configuration; warning records and AEAD lists with several ids are not judged. Found and repaired P8 (375c2ec).",
     },
+    "C11": {
+        "technique": "model-based stateful property testing (rapid): generated loss patterns between the real NTS-enabled IPClient and the real IP listener through an inspecting relay; oracle = pool-level model plus an independent extension-field walker and miscreant AES-SIV on every datagram on the wire",
+        "level": "Generated search over sequences of up to 40 exchanges with runs of up to 10 consecutive losses (every pool level 8..1, exhaustion and re-keying). Exploration.",
+        "note": "Cookies are exactly this project's (sealed by ServerCookie.EncryptWithNonce under the provider shared with the listener). Key rotation between exchanges is covered by C12. Found and repaired P2 (a656d56) and P3 (43dc11b).",
+    },
 }
